@@ -24,9 +24,24 @@ import (
 )
 
 type ctx struct {
-	o   *common.Options
-	rep *common.Report
-	dir string
+	o      *common.Options
+	rep    *common.Report
+	dir    string
+	perKey map[string]int
+}
+
+// failure records an oracle failure; the report keeps a bounded list, so at most 3 cases per key are
+// listed (every further one is only counted) and no key can crowd out another.
+func (x *ctx) failure(f common.OracleFailure) {
+	if x.perKey == nil {
+		x.perKey = map[string]int{}
+	}
+	x.perKey[f.Key]++
+	if x.perKey[f.Key] <= 3 {
+		x.rep.Fail(f)
+	} else {
+		x.rep.Count("ORACLE-FAIL:" + f.Key)
+	}
 }
 
 func sigOf(c Case) string {
@@ -89,7 +104,7 @@ func evalLoad(x *ctx, cs Case, mo *modelOut) ImplResult {
 	}
 	x.rep.Sample(map[string]any{"case": cs, "impl": impl.Line})
 	fail := func(key, detail string) {
-		x.rep.Fail(common.OracleFailure{Engine: "config", Key: key, Case: cs, Detail: detail})
+		x.failure(common.OracleFailure{Engine: "config", Key: key, Case: cs, Detail: detail})
 	}
 	if strings.HasPrefix(impl.Line, "panic") || strings.HasPrefix(implMig.Line, "panic") {
 		fail("panic-at-load", impl.Line+" / "+implMig.Line)
@@ -179,12 +194,12 @@ func evalSmoke(x *ctx, cs Case, plan SmokePlan, crashKey string) (crashed bool) 
 }
 
 func judgeSmoke(x *ctx, cs Case, plan SmokePlan, crashKey string, o SmokeOutcome) (crashed bool) {
-	if o.Result != nil && !o.Crashed && !(o.Result.TCP && o.Result.UDP && o.Result.Stopped) && o.Result.LoadErr == "" && !o.Result.Busy {
+	for try := 0; try < 2 && o.Result != nil && !o.Crashed && !(o.Result.TCP && o.Result.UDP && o.Result.Stopped) && o.Result.LoadErr == "" && !o.Result.Busy; try++ {
 		x.rep.Count("smoke=retried")
-		o = runSmoke(plan, x.dir) // one retry: loopback UDP and scheduling are not under our control
+		o = runSmoke(plan, x.dir) // retried (run alone now): loopback UDP and scheduling are not under our control
 	}
 	fail := func(key, detail string) {
-		x.rep.Fail(common.OracleFailure{Engine: "smoke", Key: key, Case: cs, Detail: detail})
+		x.failure(common.OracleFailure{Engine: "smoke", Key: key, Case: cs, Detail: detail})
 	}
 	oj, _ := json.Marshal(o)
 	switch {
@@ -334,7 +349,7 @@ func probes(x *ctx) error {
 			a1, _, a3 := f.Add(5), f.Add(1000), f.Add(5)
 			if a1 && a3 {
 				x.rep.FindingsProbed[keyF15] = true
-				x.rep.Fail(common.OracleFailure{Engine: "config", Key: keyF15, Case: cs2,
+				x.failure(common.OracleFailure{Engine: "config", Key: keyF15, Case: cs2,
 					Detail: "slidingWindowFilterSize 18446744073709551615 is accepted at load; the filter built from it accepts packet id 5 twice (5, 1000, 5)"})
 			}
 		}
@@ -430,6 +445,10 @@ func replay(x *ctx, cs Case) error {
 
 func run(x *ctx) error {
 	r := common.NewRng(x.o.Seed)
+	// 0. directed probes of F4 / F12 / F15 / F20
+	if err := probes(x); err != nil {
+		return err
+	}
 	// 1. load cases
 	n := x.o.Budget(3000, 50000)
 	var batch []Case
@@ -464,10 +483,6 @@ func run(x *ctx) error {
 		}
 	}
 	if err := flush(); err != nil {
-		return err
-	}
-	// 2. directed probes of F4 / F12 / F15
-	if err := probes(x); err != nil {
 		return err
 	}
 	// 3. smoke
